@@ -12,6 +12,8 @@ import tracecheck
 
 
 def check(run):
+    if xc.maybe_replay(run):
+        return
     quick = run.tier == "quick"
     run.build_harness()
     run.tlc_mc("Ledger.tla", "MC_Ledger.cfg", timeout=3000)
